@@ -1,3 +1,48 @@
+(* C20  K-means assigns to the nearest centroid; cluster-derived GMM initialisation is exact. *)
 From Coq Require Import Reals List.
-Theorem placeholder : True. Proof. exact I. Qed.
-Print Assumptions placeholder.
+From BLE Require Import Num.InstR Model.KMeans Proofs.RLemmas Proofs.KMeansR.
+Import ListNotations KR.
+Open Scope R_scope.
+
+Theorem C20_distance_is_squared_euclidean (c x : list R) :
+  sqdist c x = rsum (V.map2 (fun a b => (a - b) * (a - b)) c x) /\ 0 <= sqdist c x.
+Proof. exact (conj (dist_is_sqeuclid c x) (dist_nonneg c x)). Qed.
+Print Assumptions C20_distance_is_squared_euclidean.
+
+Theorem C20_distance_shape (cents X : list (list R)) :
+  length (distances cents X) = length cents /\ Forall (fun row => length row = length X) (distances cents X).
+Proof. exact (dist_shape cents X). Qed.
+Print Assumptions C20_distance_shape.
+
+Theorem C20_label_is_first_nearest (cents : list (list R)) (x : list R) : cents <> [] ->
+  let k := closest cents x in
+  (k < length cents)%nat
+  /\ (forall j, (j < length cents)%nat -> nth k (dists cents x) 0 <= nth j (dists cents x) 0)
+  /\ (forall j, (j < k)%nat -> nth k (dists cents x) 0 < nth j (dists cents x) 0).
+Proof. exact (predict_is_argmin cents x). Qed.
+Print Assumptions C20_label_is_first_nearest.
+
+Theorem C20_predict_batch_split (cents X1 X2 : list (list R)) :
+  predict cents (X1 ++ X2) = predict cents X1 ++ predict cents X2.
+Proof. exact (predict_batch cents X1 X2). Qed.
+Print Assumptions C20_predict_batch_split.
+
+Theorem C20_weights_are_fractions (nf : nat) (cents X : list (list R)) : cents <> [] -> X <> [] ->
+  snd (var_weights nf cents [X]) = map (fun k => INR (length (members cents k X)) / INR (length X)) (seq 0 (length cents))
+  /\ rsum (snd (var_weights nf cents [X])) = 1.
+Proof. exact (weights_are_fractions nf cents X). Qed.
+Print Assumptions C20_weights_are_fractions.
+
+Theorem C20_variances_are_biased_variances (nf : nat) (cents X : list (list R)) (k : nat) : rows_ok nf X ->
+  (k < length cents)%nat -> members cents k X <> [] ->
+  let M := members cents k X in
+  nth k (fst (var_weights nf cents [X])) []
+  = map (fun d => rsum (map (fun x => (nth d x 0 - nth d (vmean nf M) 0) * (nth d x 0 - nth d (vmean nf M) 0)) M) / INR (length M)) (seq 0 nf)
+  /\ Forall (fun v => 0 <= v) (nth k (fst (var_weights nf cents [X])) []).
+Proof. exact (variances_biased nf cents X k). Qed.
+Print Assumptions C20_variances_are_biased_variances.
+
+Theorem C20_every_chunking (nf : nat) (cents : list (list R)) (chunks : list (list (list R))) :
+  Forall (rows_ok nf) chunks -> var_weights nf cents chunks = var_weights nf cents [concat chunks].
+Proof. exact (var_weights_chunk_independent nf cents chunks). Qed.
+Print Assumptions C20_every_chunking.
